@@ -324,6 +324,16 @@ def check_tree_connected(ctx):
     w = elt[len('(_g0_0,_g0_1,'):-1] if ends else ''
     want = {'-len(set(_g0_0)&set(_g0_1))', '-len(set(_g0_1)&set(_g0_0))', '-len(set(_g0_0).intersection(_g0_1))',
             '-len(set(_g0_1).intersection(_g0_0))', '-len(set(_g0_0).intersection(set(_g0_1)))', '-len(set(_g0_1).intersection(set(_g0_0)))'}
+    known = {'len', 'set', 'frozenset', 'min', 'max', 'abs', 'sum'}
+    unknown = sorted({U(c.func) for c in ast.walk(b.elt) if isinstance(c, ast.Call) and not
+                      (U(c.func) in known or (isinstance(c.func, ast.Attribute) and c.func.attr in ('intersection', 'union', 'difference')))})
+    free = sorted({n.id for n in ast.walk(b.renamed(b.elt)) if isinstance(n, ast.Name)} - {'_g0_0', '_g0_1'} - known
+                  - {U(c.func) for c in ast.walk(b.elt) if isinstance(c, ast.Call)})
+    if free and w not in want:
+        unknown = unknown + ['loop-computed / outer value(s) %s' % free]
+    if unknown and w not in want:
+        raise AnalysisError('_make_tree: the clique-pair weight `%s` is computed by %s, which this analysis cannot relate to the size of '
+                            'the intersection (neither confirmed nor refuted)' % (U(b.elt)[:80], unknown))
     ctx.ob('tree-connected', fi, b.where or fi.node, w in want,
            'the weight of a clique pair is minus the size of its intersection (a minimum spanning tree then maximises the separators); weight `%s`' % w,
            construct='weight of the complete clique graph')
